@@ -14,7 +14,8 @@ def run(ck):
                   "timeout_is_a_timeouterror_wherever_the_component_hangs": "C07:timeout-not-a-timeouterror",
                   "nested_start_component_keeps_its_own_timeout": "C07:timeout-ignored",
                   "timeout_watches_every_tree": "C07:timeout-ignored",
-                  "refused_resource_of_a_failed_start_leaves_no_callback": "C07:teardown-after-failure"})
+                  "refused_resource_of_a_failed_start_leaves_no_callback": "C07:teardown-after-failure",
+                  "tree_started_in_a_nested_context_belongs_to_it": "C07:teardown-after-failure"})
 
 
 def replay(ck, obj):
